@@ -409,8 +409,9 @@ class BaseParser:
         return result
 
     def parse_addition(self, key: str, value, context: RuntimeContext):
-        if key in self.exclude_vars:
+        if key in self.exclude_vars and context.options.addition is not False:
             # excluded vars cannot be carry in addition even if allowed
+            # (when additions are forbidden they are unknown keys like any other)
             return unprovided
         if context.options.addition is False:
             context.handle_error(exc.ExceedError(item=key, value=value))
